@@ -486,6 +486,11 @@ def c09(ctx):
     ve, _ = tlc_mc(ctx, "MC_Texts", consts={"MaxLen": 3, "Mode": '"esc"', "EmitVectors": "TRUE", "KindFirst": "TRUE"},
                    invariants=["ReaderTotal", "Emit"], workers=8, timeout=3000)
     lit = [{"op": "filter.text", "text": [97, 32, 61, 61, 32] + x["text"], "src": "esc"} for x in (ve[::3] if q else ve)]
+    # date / time / timestamp / coord literals with one field at the edge of its range or beyond (the field family of C03 / C04,
+    # without its list / dict / grid frames), after `==` and `<`
+    fld = [x for x in text_family(ctx, "fld", True) if x["text"][:1] not in ([91], [123], [118])]
+    lit += [{"op": "filter.text", "text": [ord(c) for c in pre] + x["text"] + [ord(c) for c in post], "src": "fld"}
+            for x in fld for pre, post in (("a == ", ""), ("b < ", " and c"))]
     # relationship terms over the same family of resolver graphs (tag equipRef instead of a; records with and without `id`)
     def _cps(t):
         return [ord(ch) for ch in t]
@@ -786,6 +791,24 @@ def capi_scripts(q):
         {"fn": "haystack_value_remove_dict_entry", "h": 2, "s": _S("a")}, {"fn": "haystack_value_remove_dict_entry", "h": 2, "s": _S("a")},
         {"fn": "haystack_value_get_dict_entry", "h": 2, "s": _S("dis")}, {"fn": "haystack_value_get_list_entry_at", "h": 3, "idx": 0},
         {"fn": "haystack_value_to_json_string", "h": 3}, {"fn": "haystack_value_to_zinc_string", "h": 2}]})
+    # (e) aliasing: the handle a function reads is also the result handle it writes (nothing in the protocol forbids it): the
+    #     result must be computed from the old content before that is released
+    alias = [[{"fn": "haystack_value_get_grid_row_at", "h": 4, "idx": 1, "h2": 4}],
+             [{"fn": "haystack_value_get_dict_keys", "h": 2, "h2": 2}],
+             [{"fn": "haystack_value_get_datetime_date", "h": 7, "b": False, "h2": 7}],
+             [{"fn": "haystack_value_get_datetime_time", "h": 7, "b": True, "h2": 7}],
+             [{"fn": "haystack_filter_first_match_in_grid", "fid": 2, "h": 4, "h2": 4}],
+             [{"fn": "haystack_filter_match_all_grid", "fid": 4, "h": 4, "h2": 4}],
+             [{"fn": "haystack_filter_match_all_grid", "fid": 2, "h": 4, "h2": 4}],
+             [{"fn": "haystack_filter_match_all_grid", "fid": 3, "h": 4, "h2": 4}],
+             [{"fn": "haystack_value_push_list_entry", "h": 3, "h2": 3}],
+             [{"fn": "haystack_value_set_list_entry_at", "h": 3, "idx": 0, "h2": 3}],
+             [{"fn": "haystack_value_insert_dict_entry", "h": 2, "s": _S("self"), "h2": 2}],
+             [{"fn": "haystack_value_insert_dict_entry", "h": 2, "s": _S("a"), "h2": 2}]]
+    for a in alias:
+        tgt = a[0].get("h2", a[0]["h"])
+        hist.append({"op": "capi.history", "calls": base + [dict(c) for c in a] +
+                     [{"fn": "haystack_value_to_zinc_string", "h": tgt}, {"fn": "haystack_value_to_json_string", "h": a[0]["h"]}]})
     # (d) kind sweep: one value of every kind (Null included) put into a dict and a list, then every entry read back,
     #     the keys listed, both codecs run, entries overwritten by another kind and removed
     B = "0x%016x" % 0x4045000000000000      # 42.0
